@@ -20,6 +20,9 @@ def worker_init():
 
 
 def run_impl(op, inp):
+    if op == "line.C14":
+        from .. import mgr
+        return mgr.run_line(inp)
     import comm.bitcoin as cb
     try:
         return cb.get_unsigned_tx(inp["tx"])
@@ -70,6 +73,19 @@ def gen(tier, rng):
                 b[rng.randrange(len(b))] ^= 1 << rng.randrange(8)
                 bad = bytes(b)
             out.append(Case("unsign", {"tx": bad.hex()}, stream="malformed-%d" % k))
+    # the relay path: malformed transactions inside sign requests, also while a link repair is pending
+    from .. import reqgen
+    from . import linegen
+    bad = [c for c in out if c.meta.get("stream", "").startswith("malformed")]
+    for c in bad[: (60 if tier == "quick" else 2000)]:
+        req = reqgen.sign_auth_request(rng)
+        req["message"]["tx"] = c.input["tx"] or "00"
+        for pending in (False, True):
+            lc = linegen.line_case(rng, req, None, policy={}, stream="relay-pending" if pending else "relay",
+                                   comm_issue=pending, conns=rng.choice([[], [False], [True]]),
+                                   pin={"pin": b"1234567a".hex(), "needs_change": False})
+            lc.op = "line.C14"
+            out.append(lc)
     if tier == "thorough":
         for i in range(200):
             raw = g.ser_tx(g.rand_tx(rng, nin=rng.choice([1, 2, 3]), nout=rng.choice([0, 1, 2])))
@@ -79,8 +95,12 @@ def gen(tier, rng):
 
 
 def tags(c, o):
+    if c.op == "line.C14":
+        return [c.meta.get("stream", "?"), "code:%s" % (o.get("reply", {}).get("errorcode") if isinstance(o, dict) else "?")]
     return [c.meta.get("stream", "?"), "impl:" + ("ok" if o is not None else "rejected")]
 
 
 def nontrivial(c, o):
+    if c.op == "line.C14":
+        return True
     return o is not None and o != c.input["tx"]
